@@ -482,17 +482,20 @@ def obligations(tier):
                               bounds='two-MODEL file from micro-structure %s: residue %d is an alanine in MODEL 1; Nmin/Nmax lowered to 6/30; symbolic grid shift t in [0,2.509]' % (name, res),
                               claim_doc='as O13, in particular: within each conformation the two Coulomb determinants of an acid-base side-chain pair are equal and opposite (after averaging too)',
                               max_paths=5000, wall_s=170))
-    fx = [('pair_ASP_ARG', None), ('pair_ASP_ARG', (30, 29)), ('pair_GLU_ARG_TYR', None), ('pair_LYS_ASP', None)]
+    fx = [('pair_ASP_ARG', None), ('pair_ASP_ARG', (30, 29)), ('pair_GLU_ARG_TYR', None), ('pair_LYS_ASP', None), ('complex_MTX', None)]
     if tier == 'thorough':
         fx += [('pep8', None), ('pep8', (30, 29)), ('pair_ASP_ASP', None), ('nterm_ASP_LYS', None), ('lig_MTX', None), ('pair_CYS_CYS_bridge', None)]
     from .micro import BURIED
     for name, twin in fx:
       for params, ptag in ((None, ''), (BURIED, ',buried')):
+        if tier == 'quick' and name.startswith('complex') and not params:
+            continue
         obs.append(Obligation('O13-pipeline-end-state[%s%s%s]' % (name, ',%d->%dA' % twin if twin else '', ptag), mk_end_state(name, twin, params),
                               code=['propka/run.py:single (whole pipeline)', D + 'set_determinants', D + 'set_backbone_determinants', 'propka/iterative.py:add_determinants',
                                     'propka/coupled_groups.py:NonCovalentlyCoupledGroups.identify_non_covalently_coupled_groups'],
                               bounds='micro-structure %s%s%s under a symbolic grid shift t in [0,2.509]' % (name, ' with residue %d renumbered %dA (insertion-coded twin)' % twin if twin else '', ' with Nmin/Nmax lowered to 6/30 so that burial, Coulomb and iterative paths are active' if params else ''),
-                              claim_doc='every finally recorded determinant obeys the sign rules and bounds, in every conformation', max_paths=5000, wall_s=170))
+                              claim_doc='every finally recorded determinant obeys the sign rules and bounds, in every conformation', max_paths=5000, wall_s=170,
+                              split_input=('shift_thousandths', 8) if name.startswith('complex') else None))
     obs.append(Obligation('O12-angle-factor', o_angle_factor, code=[E + 'angle_distance_factors'],
                           bounds='two neighbour atoms in [-5,5]^3 around the hydrogen at the origin', query_timeout_ms=60000,
                           claim_doc='|f_angle| <= 1 (Cauchy-Schwarz)', tiers=('thorough',), wall_s=400))
